@@ -35,6 +35,8 @@ def gen_psd(rng, kind):
     else:
         r = rng.randint(1, n)
     B = np.array([[rng.randint(-8, 8) / 4.0 for _ in range(r)] for _ in range(n)])
+    if kind == "integer":
+        B = np.array([[float(rng.randint(-3, 3)) for _ in range(r)] for _ in range(n)])
     M = B @ B.T
     if kind == "scaled":
         D = np.diag([2.0 ** rng.randint(-10, 10) for _ in range(n)])
@@ -49,7 +51,7 @@ def gen_psd(rng, kind):
     return M, int(rank)
 
 
-KINDS = ["low", "full", "rank_one", "scaled", "repeated", "any"]
+KINDS = ["low", "full", "rank_one", "scaled", "repeated", "any", "integer"]
 
 
 def model_vecs(line):
@@ -129,6 +131,18 @@ def run(ctx):
             spec_fail.append(("pyscf_interface.modified_cholesky", "routine returns", {"M": M.tolist(), "max_error": err, "error": repr(ex)[:200]}))
         lines.append(f"numpy {rs(EPS_NP)} {rs(fr(err))} {n} " + " ".join(rs(fr(x)) for x in M.flatten()))
         refs.append(("numpy", M, err, L, rank))
+        # --- the same matrix handed over with an integer dtype when it is integer-valued (lattice interaction matrices are
+        # routinely built that way): the factorisation is a statement about the matrix, not about its storage type
+        if L is not None and np.all(M == np.round(M)) and n > 1:
+            try:
+                Li = np.array(pi.modified_cholesky(M.astype(np.int64), err), dtype=float)
+                ei = np.abs(Li.T @ Li - M).max()
+                dist["integer_dtype"] = dist.get("integer_dtype", 0) + 1
+                if not np.isfinite(Li).all() or ei > err + 3e-10 + 1e-13 * np.abs(M).max():
+                    spec_fail.append(("pyscf_interface.modified_cholesky", "Gram matrix reproduces an integer-typed input to within the threshold (element-wise)",
+                                      {"M": M.astype(int).tolist(), "dtype": "int64", "max_error": err, "got_error": float(ei), "nvec": int(Li.shape[0])}))
+            except Exception as ex:
+                spec_fail.append(("pyscf_interface.modified_cholesky", "routine returns for an integer-typed input", {"M": M.tolist(), "error": repr(ex)[:200]}))
         # --- JAX routine at nchol = rank
         try:
             Lj = np.array(lu.modified_cholesky(jnp.array(M), n, rank))
